@@ -296,4 +296,327 @@ theorem iterLoop_spec (P : Params κ) (hP : P.Good) (cb : Nat → κ → Nat →
         exact inWin_empty m.cells p stop (by omega) e
       · intro e; simp [visitsOf, rmList]
 
+/-! ## Where the scan starts: `hashmap_first_empty` -/
+
+theorem firstEmpty_get : ∀ (c : List (Cell κ)), occ c < c.length →
+    firstEmpty c < c.length ∧ c[firstEmpty c]? = some none := by
+  intro c
+  induction c with
+  | nil => intro h; simp at h
+  | cons x xs ih =>
+    intro h
+    cases x with
+    | none => simp [firstEmpty]
+    | some e =>
+      have : occ xs < xs.length := by simp [occ_cons] at h; omega
+      obtain ⟨h1, h2⟩ := ih this
+      simp only [firstEmpty, List.length_cons]
+      exact ⟨by omega, by simpa using h2⟩
+
+theorem firstEmpty_spec (c : List (Cell κ)) (h : occ c < c.length) :
+    firstEmpty c < c.length ∧ slot c (firstEmpty c) = none := by
+  obtain ⟨h1, h2⟩ := firstEmpty_get c h
+  exact ⟨h1, by rw [slot_lt c _ h1, h2]; rfl⟩
+
+theorem scanOk_start (P : Params κ) (m : Map κ) (hwf : WF P m) :
+    ScanOk P m (firstEmpty m.cells + 1) (firstEmpty m.cells + m.size) ∧
+    ∀ e, InWin m.cells (firstEmpty m.cells + 1) (firstEmpty m.cells + m.size) e ↔ Has m.cells e := by
+  have hocc : occ m.cells < m.cells.length := by have := hwf.room; have := hwf.len; unfold Map.size at *; omega
+  obtain ⟨h1, h2⟩ := firstEmpty_spec m.cells hocc
+  have hstop : slot m.cells (firstEmpty m.cells + m.size) = none := by
+    rw [slot_congr m.cells _ (firstEmpty m.cells) (by simp [Map.size])]; exact h2
+  exact ⟨⟨hwf, by omega, hstop⟩, fun e => inWin_full m.cells _ (by omega) h2 e⟩
+
+/-- `m_map_iterate` with a callback that keeps or removes the current entry -/
+theorem iterate_spec (P : Params κ) (hP : P.Good) (m : Map κ) (hwf : WF P m)
+    (cb : Nat → κ → Nat → CbAct κ) (hcb : ContRm cb) :
+    (m.length = 0 ∧ iterate P m cb = (m, [], -22)) ∨
+    (m.length ≠ 0 ∧
+      (iterate P m cb).2.2 = 0 ∧ WF P (iterate P m cb).1 ∧ SameFlags m (iterate P m cb).1 ∧
+      (iterate P m cb).1.size = m.size ∧
+      ((visitsOf (iterate P m cb).2.1).map (·.1)).Nodup ∧
+      (∀ e, e ∈ visitsOf (iterate P m cb).2.1 ↔ Has m.cells e) ∧
+      (∀ e, Has (iterate P m cb).1.cells e ↔
+        (Has m.cells e ∧ e.1 ∉ (rmList cb 0 (visitsOf (iterate P m cb).2.1)).map (·.1))) ∧
+      outEvs (iterate P m cb).2.1 = (rmList cb 0 (visitsOf (iterate P m cb).2.1)).flatMap (remEvs m)) := by
+  unfold iterate
+  by_cases h0 : m.length = 0
+  · left; rw [if_pos h0]; exact ⟨h0, rfl⟩
+  · right
+    rw [if_neg h0]
+    obtain ⟨hok, hwin⟩ := scanOk_start P m hwf
+    have := iterLoop_spec P hP cb hcb _ (2 * m.size + 1) m (firstEmpty m.cells + 1) 0 hok
+      (by have := hwf.room; omega)
+    exact ⟨h0, this.rc, this.wf, this.flags, this.size, this.nodup,
+      fun e => by rw [this.visits e, hwin e], this.after, this.evs⟩
+
+/-! ## The iterator -/
+
+theorem scan_some (c : List (Cell κ)) : ∀ (fuel p q : Nat), scan c fuel p = some q →
+    p ≤ q ∧ q < p + fuel ∧ (∃ e, slot c q = some e) ∧ ∀ r, p ≤ r → r < q → slot c r = none := by
+  intro fuel
+  induction fuel with
+  | zero => intro p q h; simp [scan] at h
+  | succ fuel ih =>
+    intro p q h
+    rw [scan] at h
+    split at h
+    · rename_i e hs
+      cases h
+      exact ⟨Nat.le_refl _, by omega, ⟨e, hs⟩, fun r h1 h2 => by omega⟩
+    · rename_i hs
+      obtain ⟨h1, h2, h3, h4⟩ := ih _ _ h
+      refine ⟨by omega, by omega, h3, ?_⟩
+      intro r hr1 hr2
+      rcases Nat.eq_or_lt_of_le hr1 with heq | hlt
+      · subst heq; exact hs
+      · exact h4 r hlt hr2
+
+theorem scan_none (c : List (Cell κ)) : ∀ (fuel p : Nat), scan c fuel p = none →
+    ∀ r, p ≤ r → r < p + fuel → slot c r = none := by
+  intro fuel
+  induction fuel with
+  | zero => intro p _ r h1 h2; omega
+  | succ fuel ih =>
+    intro p h r hr1 hr2
+    rw [scan] at h
+    split at h
+    · cases h
+    · rename_i hs
+      rcases Nat.eq_or_lt_of_le hr1 with heq | hlt
+      · subst heq; exact hs
+      · exact ih _ h r hlt (by omega)
+
+/-- the iterator is inside its scan window, which ends at an empty slot; unless the current entry
+was just removed it stands on an entry -/
+structure ItrOk (P : Params κ) (m : Map κ) (it : Itr) : Prop where
+  scan : ScanOk P m it.pos it.stop
+  lt : it.pos < it.stop
+  occupied : it.removed = false → ∃ e, slot m.cells it.pos = some e
+
+theorem inWin_skip (c : List (Cell κ)) (p q stop : Nat) (hpq : p ≤ q) (h : ∀ r, p ≤ r → r < q → slot c r = none)
+    (e : κ × Nat) : InWin c p stop e ↔ InWin c q stop e := by
+  constructor
+  · rintro ⟨r, h1, h2, h3⟩
+    refine ⟨r, ?_, h2, h3⟩
+    rcases Nat.lt_or_ge r q with hlt | hge
+    · rw [h r h1 hlt] at h3; cases h3
+    · exact hge
+  · rintro ⟨r, h1, h2, h3⟩; exact ⟨r, by omega, h2, h3⟩
+
+/-- scanning on from `p` inside a window: either nothing is left or the iterator stands on the next entry -/
+theorem scan_window (P : Params κ) (m : Map κ) (p stop : Nat) (hok : ScanOk P m p stop) (hp : p ≤ stop) :
+    (scan m.cells (stop - p) p = none ∧ ∀ e, ¬ InWin m.cells p stop e) ∨
+    (∃ q, scan m.cells (stop - p) p = some q ∧ p ≤ q ∧ q < stop ∧ (∃ e, slot m.cells q = some e) ∧
+      ∀ e, InWin m.cells q stop e ↔ InWin m.cells p stop e) := by
+  cases hsc : scan m.cells (stop - p) p with
+  | none =>
+    left
+    refine ⟨rfl, ?_⟩
+    rintro e ⟨r, h1, h2, h3⟩
+    rw [scan_none m.cells _ _ hsc r h1 (by omega)] at h3; cases h3
+  | some q =>
+    right
+    obtain ⟨h1, h2, h3, h4⟩ := scan_some m.cells _ _ _ hsc
+    exact ⟨q, rfl, h1, by omega, h3, fun e => (inWin_skip m.cells p q stop h1 h4 e).symm⟩
+
+theorem exists_has_of_length_ne_zero (P : Params κ) (m : Map κ) (hwf : WF P m) (h0 : m.length ≠ 0) :
+    ∃ e, Has m.cells e := by
+  have : occ m.cells ≠ 0 := by rw [← hwf.len]; exact h0
+  unfold occ at this
+  cases hc : m.cells.filterMap id with
+  | nil => rw [hc] at this; simp at this
+  | cons e _ => exact ⟨e, by rw [has_iff_mem, hc]; simp⟩
+
+/-- `m_map_itr_new`: `NULL` exactly for an empty map, otherwise on the first entry of the scan, with
+every live entry still ahead -/
+theorem itrNew_spec (P : Params κ) (m : Map κ) (hwf : WF P m) :
+    (m.length = 0 ∧ itrNew m = none) ∨
+    (m.length ≠ 0 ∧ ∃ it, itrNew m = some it ∧ ItrOk P m it ∧ it.removed = false ∧
+      ∀ e, InWin m.cells it.pos it.stop e ↔ Has m.cells e) := by
+  unfold itrNew
+  by_cases h0 : m.length = 0
+  · left; rw [if_pos h0]; exact ⟨h0, rfl⟩
+  · right
+    rw [if_neg h0]
+    refine ⟨h0, ?_⟩
+    obtain ⟨hok, hwin⟩ := scanOk_start P m hwf
+    have hfuel : m.size - 1 = (firstEmpty m.cells + m.size) - (firstEmpty m.cells + 1) := by omega
+    simp only
+    rw [hfuel]
+    rcases scan_window P m _ _ hok (by have := hwf.room; omega) with ⟨_, h2⟩ | ⟨q, h1, h2, h3, h4, h5⟩
+    · exfalso
+      obtain ⟨e, he⟩ := exists_has_of_length_ne_zero P m hwf h0
+      exact h2 e ((hwin e).mpr he)
+    · rw [h1]
+      refine ⟨_, rfl, ⟨⟨hwf, by simp only; omega, hok.stopNone⟩, h3, fun _ => h4⟩, rfl, ?_⟩
+      intro e
+      simp only
+      rw [h5 e, hwin e]
+
+/-- `m_map_itr_next` -/
+theorem itrNext_spec (P : Params κ) (m : Map κ) (it : Itr) (hok : ItrOk P m it) :
+    (itrNext m it = none ∧ ∀ e, ¬ InWin m.cells (if it.removed then it.pos else it.pos + 1) it.stop e) ∨
+    (∃ it', itrNext m it = some it' ∧ ItrOk P m it' ∧ it'.removed = false ∧ it'.stop = it.stop ∧
+      (if it.removed then it.pos else it.pos + 1) ≤ it'.pos ∧
+      ∀ e, InWin m.cells it'.pos it.stop e ↔ InWin m.cells (if it.removed then it.pos else it.pos + 1) it.stop e) := by
+  unfold itrNext
+  simp only
+  have hok' : ScanOk P m (if it.removed then it.pos else it.pos + 1) it.stop := by
+    split
+    · exact hok.scan
+    · exact ⟨hok.scan.wf, by have := hok.scan.lo; omega, hok.scan.stopNone⟩
+  have hle : (if it.removed then it.pos else it.pos + 1) ≤ it.stop := by
+    have := hok.lt; split <;> omega
+  rcases scan_window P m _ _ hok' hle with ⟨h1, h2⟩ | ⟨q, h1, h2, h3, h4, h5⟩
+  · left; rw [h1]; exact ⟨rfl, h2⟩
+  · right
+    rw [h1]
+    refine ⟨_, rfl, ⟨⟨hok.scan.wf, ?_, hok.scan.stopNone⟩, h3, fun _ => h4⟩, rfl, rfl, h2, h5⟩
+    simp only
+    have := hok.scan.lo
+    split at h2 <;> omega
+
+/-! ## Walking the map with the iterator (`m_itr_foreach`), removing some of the visited entries -/
+
+/-- `for (itr = m_map_itr_new(m); itr; m_map_itr_next(&itr)) { read key and value; maybe m_map_itr_remove(itr); }`
+with `dec i k v` = "remove the `i`-th visited entry"; returns the map, the visited entries, the events -/
+def itrWalk (P : Params κ) (dec : Nat → κ → Nat → Bool) :
+    Nat → Map κ → Option Itr → Nat → Map κ × List (κ × Nat) × List (Ev κ)
+  | 0, m, _, _ => (m, [], [])
+  | _ + 1, m, none, _ => (m, [], [])
+  | fuel + 1, m, some it, vn =>
+    match itrKey m it, itrGet m it with
+    | some k, some v =>
+      if dec vn k v then
+        let r := itrRemove P m it
+        let r' := itrWalk P dec fuel r.1 (itrNext r.1 r.2.2.1) (vn + 1)
+        (r'.1, (k, v) :: r'.2.1, r.2.1 ++ r'.2.2)
+      else
+        let r' := itrWalk P dec fuel m (itrNext m it) (vn + 1)
+        (r'.1, (k, v) :: r'.2.1, r'.2.2)
+    | _, _ => (m, [], [])
+
+/-- the visited entries that were removed -/
+def rmListB (dec : Nat → κ → Nat → Bool) : Nat → List (κ × Nat) → List (κ × Nat)
+  | _, [] => []
+  | vn, e :: rest => (if dec vn e.1 e.2 then [e] else []) ++ rmListB dec (vn + 1) rest
+
+theorem itrWalk_none (P : Params κ) (dec : Nat → κ → Nat → Bool) (fuel : Nat) (m : Map κ) (vn : Nat) :
+    itrWalk P dec fuel m none vn = (m, [], []) := by
+  cases fuel <;> rfl
+
+structure WalkPost (P : Params κ) (dec : Nat → κ → Nat → Bool) (m : Map κ) (p stop vn : Nat)
+    (r : Map κ × List (κ × Nat) × List (Ev κ)) : Prop where
+  wf : WF P r.1
+  flags : SameFlags m r.1
+  size : r.1.size = m.size
+  nodup : (r.2.1.map (·.1)).Nodup
+  visits : ∀ e, e ∈ r.2.1 ↔ InWin m.cells p stop e
+  after : ∀ e, Has r.1.cells e ↔ (Has m.cells e ∧ e.1 ∉ (rmListB dec vn r.2.1).map (·.1))
+  evs : r.2.2 = (rmListB dec vn r.2.1).flatMap (remEvs m)
+
+theorem walkPost_nil (P : Params κ) (dec : Nat → κ → Nat → Bool) (m : Map κ) (hwf : WF P m) (p stop vn : Nat)
+    (h : ∀ e, ¬ InWin m.cells p stop e) : WalkPost P dec m p stop vn (m, [], []) :=
+  ⟨hwf, SameFlags.refl m, rfl, by simp, fun e => by simp; exact h e, fun e => by simp [rmListB], by simp [rmListB]⟩
+
+theorem itrWalk_spec (P : Params κ) (hP : P.Good) (dec : Nat → κ → Nat → Bool) :
+    ∀ (fuel : Nat) (m : Map κ) (it : Itr) (vn : Nat), ItrOk P m it → it.removed = false →
+      (it.stop - it.pos) + m.length < fuel →
+      WalkPost P dec m it.pos it.stop vn (itrWalk P dec fuel m (some it) vn) := by
+  intro fuel
+  induction fuel with
+  | zero => intro m it vn _ _ hf; omega
+  | succ fuel ih =>
+    intro m it vn hok hnr hf
+    have hn : 0 < m.cells.length := by have := hok.scan.wf.size.pos hP; unfold Map.size at this; omega
+    obtain ⟨⟨k, v⟩, hs⟩ := hok.occupied hnr
+    have hkey : itrKey m it = some k := by unfold itrKey; rw [hnr, hs]; rfl
+    have hget : itrGet m it = some v := by unfold itrGet; rw [hnr, hs]; rfl
+    rw [itrWalk, hkey, hget]
+    simp only
+    by_cases hd : dec vn k v = true
+    · -- remove the current entry
+      rw [if_pos hd]
+      have hrem : itrRemove P m it = ((clearElem P m it.pos).1, (clearElem P m it.pos).2, { it with removed := true }, 0) := by
+        unfold itrRemove; rw [hnr]; rfl
+      rw [hrem]
+      simp only
+      obtain ⟨g1, g2, g3, g4, g5, g6, g7⟩ := rm_step P hP m it.pos it.stop hok.scan hok.lt k v hs
+      have hn' : 0 < (clearElem P m it.pos).1.cells.length := by have := g3; unfold Map.size at this; omega
+      have hok1 : ItrOk P (clearElem P m it.pos).1 { it with removed := true } :=
+        ⟨g1, hok.lt, fun h => by cases h⟩
+      have hrm : ∀ vis, rmListB dec vn ((k, v) :: vis) = (k, v) :: rmListB dec (vn + 1) vis := by
+        intro vis; simp [rmListB, hd]
+      have hpost : ∀ r', WalkPost P dec (clearElem P m it.pos).1 it.pos it.stop (vn + 1) r' →
+          WalkPost P dec m it.pos it.stop vn (r'.1, (k, v) :: r'.2.1, (clearElem P m it.pos).2 ++ r'.2.2) := by
+        intro r' this
+        refine ⟨this.wf, g2.trans this.flags, by rw [this.size, g3], ?_, ?_, ?_, ?_⟩
+        · simp only [List.map_cons, List.nodup_cons]
+          refine ⟨?_, this.nodup⟩
+          intro hmem
+          obtain ⟨e, he, hek⟩ := List.mem_map.mp hmem
+          have hin := (this.visits e).mp he
+          exact ((g6 e).mp (inWin_has _ _ _ _ hn' hin)).2 hek
+        · intro e
+          simp only [List.mem_cons]
+          rw [this.visits e, g7 e, inWin_step_some m.cells it.pos it.stop hok.lt (k, v) hs e]
+        · intro e
+          simp only
+          rw [hrm, this.after e, g6 e]
+          simp only [List.map_cons, List.mem_cons, not_or]
+          constructor
+          · rintro ⟨⟨a, b⟩, c⟩; exact ⟨a, b, c⟩
+          · rintro ⟨a, b, c⟩; exact ⟨⟨a, b⟩, c⟩
+        · simp only
+          rw [hrm, List.flatMap_cons, this.evs, flatMap_remEvs_congr g2, g5]
+      rcases itrNext_spec P _ _ hok1 with ⟨h1, h2⟩ | ⟨it', h1, h2, h3, h4, h5, h6⟩
+      · rw [h1, itrWalk_none]
+        exact hpost _ (walkPost_nil P dec _ g1.wf _ _ _ (by simpa using h2))
+      · rw [h1]
+        simp only [if_true] at h5 h6
+        have h4' : it'.stop = it.stop := h4
+        have := ih (clearElem P m it.pos).1 it' (vn + 1) h2 h3 (by have := h2.lt; omega)
+        rw [h4'] at this
+        have hw : WalkPost P dec (clearElem P m it.pos).1 it.pos it.stop (vn + 1)
+            (itrWalk P dec fuel (clearElem P m it.pos).1 (some it') (vn + 1)) :=
+          { this with visits := fun e => by rw [this.visits e, h6 e] }
+        exact hpost _ hw
+    · -- keep it
+      rw [if_neg hd]
+      have hrm : ∀ vis, rmListB dec vn ((k, v) :: vis) = rmListB dec (vn + 1) vis := by
+        intro vis; simp [rmListB, hd]
+      have hpost : ∀ r', WalkPost P dec m (it.pos + 1) it.stop (vn + 1) r' →
+          WalkPost P dec m it.pos it.stop vn (r'.1, (k, v) :: r'.2.1, r'.2.2) := by
+        intro r' this
+        refine ⟨this.wf, this.flags, this.size, ?_, ?_, ?_, ?_⟩
+        · simp only [List.map_cons, List.nodup_cons]
+          refine ⟨?_, this.nodup⟩
+          intro hmem
+          obtain ⟨e, he, hek⟩ := List.mem_map.mp hmem
+          obtain ⟨q, hq1, hq2, hq3⟩ := (this.visits e).mp he
+          obtain ⟨k', w⟩ := e
+          simp only at hek; subst hek
+          have := hok.scan.wf.tbl.uniq (q % m.cells.length) (it.pos % m.cells.length) k' w v (Nat.mod_lt _ hn)
+            (Nat.mod_lt _ hn) (by rw [slot_mod]; exact hq3) (by rw [slot_mod]; exact hs)
+          have hlo := hok.scan.lo; unfold Map.size at hlo
+          exact mod_ne_of_lt m.cells.length it.pos q (by omega) (by omega) this.symm
+        · intro e
+          simp only [List.mem_cons]
+          rw [this.visits e, inWin_step_some m.cells it.pos it.stop hok.lt (k, v) hs e]
+        · intro e; simp only; rw [hrm]; exact this.after e
+        · simp only; rw [hrm]; exact this.evs
+      rcases itrNext_spec P _ _ hok with ⟨h1, h2⟩ | ⟨it', h1, h2, h3, h4, h5, h6⟩
+      · rw [h1, itrWalk_none]
+        rw [hnr] at h2
+        exact hpost _ (walkPost_nil P dec _ hok.scan.wf _ _ _ (by simpa using h2))
+      · rw [h1]
+        rw [hnr] at h5 h6
+        simp only [Bool.false_eq_true, if_false] at h5 h6
+        have := ih m it' (vn + 1) h2 h3 (by have := h2.lt; omega)
+        rw [h4] at this
+        have hw : WalkPost P dec m (it.pos + 1) it.stop (vn + 1) (itrWalk P dec fuel m (some it') (vn + 1)) :=
+          { this with visits := fun e => by rw [this.visits e, h6 e] }
+        exact hpost _ hw
+
 end Lm.Struct.Map
